@@ -236,6 +236,11 @@ def _names(lst, prog=None):
         st = style_of(prog, x) if prog is not None and x.isidentifier() else "name"
         if st in ("decorator", "devent"):
             continue
+        if st == "closure":
+            # a free callable made by a factory: every such callable has the same __name__ ("hook")
+            meta = prog["cbs"]["machine." + x]
+            out.append(f"_sim_hook({prog['name'] + '/machine.' + x!r}, {meta['group']!r}, {bool(meta.get('async'))!r})")
+            continue
         out.append(x if st == "callable" else repr(x))
     return "[" + ", ".join(out) + "]"
 
@@ -381,6 +386,11 @@ def render_machine(prog, base_name=None):
                     if name in st.get(g, []):
                         decos.append(f"    @{st['id']}.{g}")
             lines.append("\n".join(decos) + "\n" + render_cb(prog, cbid).rstrip("\n"))
+    if prog.get("machine_eq") and not base_name:
+        # a machine class with value semantics: all its instances compare (and hash) equal -- they are
+        # still separate machines
+        lines.append("    def __eq__(self, other):\n        return type(other) is type(self)\n"
+                     "    def __hash__(self):\n        return 7")
     for pr in prog.get("probes", []):
         full = f"{prog['name']}/machine.{pr['name']}"
         if pr["kind"] == "property":
@@ -406,6 +416,15 @@ def render_program(prog, base_name=None):
         "from sim.simrt import SIM",
         "import asyncio",
         "import functools",
+        "",
+        "def _sim_hook(cbid, grp, is_async=False):",
+        "    if is_async:",
+        "        async def hook(*args, **kw):",
+        "            return await SIM.acb(cbid, kw.get('machine'), {'args': args, 'kw': kw}, grp)",
+        "    else:",
+        "        def hook(*args, **kw):",
+        "            return SIM.cb(cbid, kw.get('machine'), {'args': args, 'kw': kw}, grp)",
+        "    return hook",
         "",
         "def _sim_deco(f):",
         "    if asyncio.iscoroutinefunction(f):",
